@@ -1,0 +1,77 @@
+//! Verification hooks for [`DoubleArrayAhoCorasick`] (compiled only with `--cfg daachorse_verif`).
+
+use alloc::vec::Vec;
+
+use crate::bytewise::DoubleArrayAhoCorasick;
+use crate::utils::FromU32;
+use crate::verif::{RawAutomaton, RawOutput, RawState};
+
+impl<V> DoubleArrayAhoCorasick<V>
+where
+    V: Copy,
+{
+    /// Returns a raw copy of the tables.
+    #[must_use]
+    pub fn verif_raw(&self) -> RawAutomaton<V> {
+        let states: Vec<_> = self
+            .states
+            .iter()
+            .map(|s| RawState {
+                base: s.base().map_or(0, core::num::NonZeroU32::get),
+                check: u32::from(s.check()),
+                fail: s.fail(),
+                output_pos: s.output_pos().map_or(0, core::num::NonZeroU32::get),
+            })
+            .collect();
+        let outputs: Vec<_> = self
+            .outputs
+            .iter()
+            .map(|o| RawOutput {
+                value: o.value(),
+                length: o.length(),
+                parent: o.parent().map_or(0, core::num::NonZeroU32::get),
+            })
+            .collect();
+        RawAutomaton {
+            states,
+            outputs,
+            mapper_table: Vec::new(),
+            alphabet_size: 256,
+            match_kind: u8::from(self.match_kind),
+            num_states: self.num_states,
+        }
+    }
+
+    /// Calls the crate's own child function.
+    ///
+    /// # Panics
+    ///
+    /// Panics if `state_id` is out of range.
+    #[must_use]
+    pub fn verif_child(&self, state_id: u32, c: u8) -> Option<u32> {
+        assert!(usize::from_u32(state_id) < self.states.len());
+        unsafe { self.child_index_unchecked(state_id, c) }
+    }
+
+    /// Calls the crate's own standard transition function.
+    ///
+    /// # Panics
+    ///
+    /// Panics if `state_id` is out of range.
+    #[must_use]
+    pub fn verif_next_state(&self, state_id: u32, c: u8) -> u32 {
+        assert!(usize::from_u32(state_id) < self.states.len());
+        unsafe { self.next_state_id_unchecked(state_id, c) }
+    }
+
+    /// Calls the crate's own leftmost transition function.
+    ///
+    /// # Panics
+    ///
+    /// Panics if `state_id` is out of range.
+    #[must_use]
+    pub fn verif_next_state_leftmost(&self, state_id: u32, c: u8) -> u32 {
+        assert!(usize::from_u32(state_id) < self.states.len());
+        unsafe { self.next_state_id_leftmost_unchecked(state_id, c) }
+    }
+}
